@@ -241,7 +241,13 @@ def race (st : St) (kv ora : KV) (replyToks sessToks : List String) : St × Stri
   match target, okPre with
   | some s, true =>
     let blocked := (Throttle.check h.thr now0 (h.tkey c) "HelloResume").2
-    let h' := raceRest now0 h c s.sid (if en == "bye" then o else none)
+    -- a bye racing freely (or after) the resume may be lost with the connection the take-over closes: then the
+    -- tables at rest are those of the resume alone
+    let keep := en == "bye" && get kv "first" != "end"
+    let resumedAlive := keep && (match parseObs .ignored sessToks with
+      | some obs => obs.sessions.any (fun x => x.sid = s.sid && x.conn == some c)
+      | none => false)
+    let h' := if resumedAlive then (helloResume now0 h c m).1 else raceRest now0 h c s.sid (if en == "bye" then o else none)
     let allowed := if blocked then ["error:" ++ enc (errCode "TooManyRequests")]
       else if !m.resume.decodes then ["error:" ++ enc (errCode "NoSuchSession")]
       else ["none", s!"hello:{s.sid}", "error:" ++ enc (errCode "NoSuchSession")]
@@ -250,7 +256,7 @@ def race (st : St) (kv ora : KV) (replyToks sessToks : List String) : St × Stri
     let out := reply ++ " ; " ++ showTables h' (some c)
     let (j', v) :=
       match parseObs .ignored sessToks with
-      | some obs => st.judge.observeRace s.sid (got == s!"hello:{s.sid}") obs
+      | some obs => st.judge.observeRace s.sid (got == s!"hello:{s.sid}") obs (if keep then some c else none)
       | none => (st.judge, "na")
     ({ st with hub := h', judge := j' }, out, v)
   | _, _ =>
